@@ -33,6 +33,34 @@ macro_rules! c17_layout {
                 assert!(got == want, "C17: &AnyLayout differs from the wrapped layout");
                 kani::cover!(matches!(got, DecodedKey::Unicode(_)));
             }
+            /// The wrapper answers like the wrapped layout on *every* call, not only on the first one from
+            /// a fresh program state: one arbitrary earlier query (any key, modifiers and mode, by value
+            /// or by reference) precedes the compared one.  Seed C17-r4m1 keeps a one-entry global memo of
+            /// the last lookup keyed without the Ctrl mode; each call on its own, and any sequence with an
+            /// unchanged mode, agrees with the wrapped layout.
+            #[kani::proof]
+            pub fn c17_q_after_earlier_query() {
+                let a = AnyLayout::$ty($ty);
+                let r = &a;
+                let (k1, m1, h1) = (any_key(), any_mods(), any_mode());
+                let first_by_ref: bool = kani::any();
+                let _ = if first_by_ref {
+                    <&AnyLayout as KeyboardLayout>::map_keycode(&r, k1, &m1, h1)
+                } else {
+                    a.map_keycode(k1, &m1, h1)
+                };
+                let (k, m, h) = (any_key(), any_mods(), any_mode());
+                let by_ref: bool = kani::any();
+                let got = if by_ref {
+                    <&AnyLayout as KeyboardLayout>::map_keycode(&r, k, &m, h)
+                } else {
+                    a.map_keycode(k, &m, h)
+                };
+                let want = $ty.map_keycode(k, &m, h);
+                crate::show!("C17 AnyLayout::{} earlier query key={:?} mods={:?} mode={:?} by_ref={}; then key={:?} mods={:?} mode={:?} by_ref={} got={:?} want={:?}", stringify!($ty), k1, m1, h1, first_by_ref, k, m, h, by_ref, got, want);
+                assert!(got == want, "C17: AnyLayout differs from the wrapped layout after an earlier query");
+                kani::cover!(k == k1 && matches!(got, DecodedKey::Unicode(_)));
+            }
             /// Switching the variant on a live decoder (after a symbolic two-event history) switches to
             /// that layout and no other, on the very next key: a decoder that started with another
             /// variant and is switched to X answers like one that held X all along (both get the same
